@@ -152,6 +152,15 @@ func c14Constructors(c *fw.Case) {
 			{map[string]interface{}{"op": "add", "path": "/a", "value": map[string]interface{}{"b": 1}}, map[string]interface{}{"op": "copy", "from": "/a", "path": "/ab"}, map[string]interface{}{"op": "move", "from": "/a/b", "path": "/a/bc"}},
 		})...)
 	}
+	if r.Chance(1, 3) {
+		// the empty pointer is a well-formed pointer too (the whole document): as path and as from
+		freeOps = append(freeOps, fw.Pick(r, []interface{}{
+			map[string]interface{}{"op": "test", "path": "", "value": map[string]interface{}{"foo": "bar"}},
+			map[string]interface{}{"op": "copy", "from": "", "path": "/snapshot"},
+			map[string]interface{}{"op": "add", "path": "", "value": map[string]interface{}{}},
+			map[string]interface{}{"op": "replace", "path": "", "value": map[string]interface{}{"a": 1}}}))
+		c.Count("whole-document-pointers", 1)
+	}
 	js := func(v interface{}) string {
 		return string(gen.Spell(r, oracle.MustGeneric(v), gen.SpellOpts{Whitespace: true, Shuffle: true}))
 	}
